@@ -3092,6 +3092,11 @@ CS104_Slave_closeAllConnections(CS104_Slave self)
         if (self->masterConnections[i]) {
             if (self->masterConnections[i]->isUsed) {
                 self->masterConnections[i]->isUsed = false;
+
+                /* the connection ends: event ASDUs sent on it and not acknowledged have to be sent again on the next one */
+                if (self->masterConnections[i]->lowPrioQueue)
+                    MessageQueue_setWaitingForTransmissionWhenNotConfirmed(self->masterConnections[i]->lowPrioQueue);
+
                 MasterConnection_deinit(self->masterConnections[i]);
             }
         }
